@@ -13,16 +13,19 @@ def main(tier, args):
     res = vf.Result(); log = open(vf.BUILD + "/C06/log.txt", "w")
     jobs = []
     # (mode, receive threshold, consumption policy 0 all/1 one byte/2 none/3 all-but-1, extra: cb= callback behaviour, ev= initialize() events, bind= bind/unbind ops, depth delta)
-    cfgs = [("bfd", 0, 0, [], 0), ("bfd", 1, 1, [], 0), ("bfd", 3, 3, [], 0), ("bfd", 0, 2, [], 0), ("tcp", 0, 0, [], 0), ("tcp", 3, 1, [], 0),
-            ("bfd", 0, 0, ["cb=1"], 0), ("bfd", 1, 3, ["cb=2"], 0), ("bfd", 0, 1, ["cb=3"], 0), ("tcp", 0, 3, ["cb=2"], -1), ("tcp", 0, 0, ["cb=3"], -1),
-            ("bfd", 0, 3, ["bind=1"], 0), ("tcp", 3, 1, ["bind=1"], -1), ("bfd", 0, 3, ["ev=1"], 0), ("bfd", 0, 0, ["ev=2"], -1)]
+    cfgs = [("bfd", 0, 0, [], 0), ("bfd", 1, 1, ["kind=1"], 0), ("bfd", 3, 3, [], 0), ("bfd", 0, 2, [], 0), ("tcp", 0, 0, [], 0), ("tcp", 3, 1, [], -1),
+            ("bfd", 0, 0, ["cb=1"], 0), ("bfd", 1, 3, ["cb=2"], 0), ("bfd", 0, 1, ["cb=3"], 0), ("tcp", 0, 0, ["cb=3"], -1),
+            ("bfd", 0, 3, ["bind=1"], -1), ("bfd", 0, 3, ["ev=1"], 0), ("bfd", 0, 0, ["ev=2"], -1),
+            ("bfd", 1, 3, ["shrink=1"], 0), ("tcp", 3, 3, ["shrink=1"], -1), ("bfd", 0, 3, ["cb=4"], -1),
+            ("bfd", 0, 3, ["ev=1", "kind=2"], 0), ("bfd", 0, 0, ["ev=2", "kind=2"], -1)]
     # server/client lane: (threshold, policy) for the server and both clients, rc=1 client 0 auto-reconnects, bind=1 client 1 forwards to a bound receiver
-    tcfgs = [["thr=0", "pol=0", "rc=0", "bind=0"], ["thr=3", "pol=3", "rc=1", "bind=1"]]
+    tcfgs = [(["thr=0", "pol=0", "rc=0", "bind=0"], 0), (["thr=3", "pol=3", "rc=1", "bind=1", "reinit=1"], 0),
+             (["thr=0", "pol=3", "rc=0", "bind=0", "cb=3"], -1), (["thr=1", "pol=0", "rc=0", "bind=0", "cb=4"], -1)]      # cb: 1 greeting in both connected callbacks + 2 echo server; 4 close in the first receive callback
     for e in ("epoll", "select"):      # longest jobs first
-        for targs in tcfgs:
+        for (targs, tdd) in tcfgs:
             for p in (0, 1, 3, 2):
                 for sp in range(tsub):
-                    jobs.append(("tcp:%s:%s:p%d.%d" % (e, ",".join(targs), p, sp), [tcp, e, str(tdepth), sockdir, str(p), str(tnp)] + targs + ["sub=%d/%d" % (sp, tsub)]))
+                    jobs.append(("tcp:%s:%s:p%d.%d" % (e, ",".join(targs), p, sp), [tcp, e, str(tdepth + tdd), sockdir, str(p), str(tnp)] + targs + ["sub=%d/%d" % (sp, tsub)]))
     for e in ("epoll", "select"):
         for (mode, thr, pol, extra, dd) in cfgs:
             for p in range(np):
@@ -31,18 +34,30 @@ def main(tier, args):
         jobs.append(("bulkrecv:%s" % e, [exe, "bulkrecv", e]))
     if args.only: jobs = [j for j in jobs if j[0].startswith(args.only)]
     vf.run_procs(res, jobs, env={"VERIF_DEADLINE_S": str(dl)}, log=log)
+    # every kind of injected I/O deviation must really have altered a system call of the code under test (the interposer is reached)
+    if not args.only:
+        for kind in ("wclamp", "weagain", "rclamp", "reagain"):
+            if res.stats.get("dev_armed_" + kind, 0) > 0 and res.stats.get("dev_fired_" + kind, 0) == 0:
+                res.errors.append("injected deviation '%s' was armed %d times but never reached a system call of the descriptor under test" % (kind, res.stats["dev_armed_" + kind]))
+    pol_names = {0: "all", 1: "1 byte", 2: "none", 3: "all-but-1"}
+    pairs = sorted(set("%s thr%d/%s" % (m, t, pol_names[p_]) for (m, t, p_, _x, _d) in cfgs))
     vf.finish(PID, tier, res, t0,
-              rule="(1) BFS (depth %d, canonical-state dedup incl. read index/capacity of both buffers) over all histories of send(1|2|5)/enable/disable/peer-read/peer-write/peer-close/loop-pass with <=%d injected I/O deviations "
-                   "(next write returns 1 byte, next write EAGAIN, next readv 1 byte) on the real BufferedFd and TcpConnection (there 'disable' = disconnect()) over a socketpair, both back-ends, %d configurations: receive threshold {0,1,3} x consumption policy "
-                   "{all,1 byte,none,all-but-1}; user callbacks that call back in (send-complete sends 2 bytes, receive callback echoes what it took, receive callback pauses the descriptor / disconnects the connection); bind()/unbind() to a recording "
-                   "receiver as extra operations; initialize(kReadOnly) and initialize(kWriteOnly) (some configurations one level shallower); only operations that change the model state are offered. After every history the loop is run to quiescence with the peer draining, "
-                   "then the callback is replaced on the live object (threshold 0, take all) and the peer writes one more byte: all unconsumed bytes must come again with it. Byte-exact std::string reference for both directions; shown/delivered/close "
-                   "clauses are decided by the reference model. (2) TcpServer+TcpClient lane (real acceptor/connector over a unix-domain socket, depth %d, 2 configurations: threshold/policy 0/all and 3/all-but-1, client 0 with auto-reconnect, client 1 bound "
-                   "to a receiver): objects go through several sessions - client stop/start, client 1 cleanup()+initialize(), peer-initiated disconnect, auto-reconnect, server stop/start with connections waiting in the listen queue, shutdown(SHUT_WR) "
-                   "from either side, late installation of callbacks inside the connected callback, per-connection send-complete against per-descriptor written counters, callback replacement at the end. (3) bulk lanes with real kernel back-pressure: "
-                   "sends of 64 KiB-2 MiB through SO_SNDBUF 4 KiB before/after enable; receives of 1024 B-1 MiB in two step sizes x threshold {0,1500} x {take all, all-but-1, nothing, forward to a second real BufferedFd with a slow reader} x enable before/after the data"
-                   % (depth, maxdev, len(cfgs), tdepth),
+              rule="(1) BFS (depth %d, some configurations one level shallower; canonical-state dedup incl. read index/capacity of both buffers, read through probes) over all histories of send(1|2|5)/enable/disable/peer-read/peer-write/"
+                   "peer-close (half close after draining)/peer-close-fully (reset when it has unread data)/loop-pass with <=%d injected I/O deviations (next write 1 byte, next write EAGAIN, next read 1 byte, next read EAGAIN; every read-/write-type call of the "
+                   "descriptor is interposed and each deviation kind must have fired) on the real BufferedFd and TcpConnection (there 'disable' = disconnect()), both back-ends, %d configurations; the (mode threshold/consumption policy) pairs actually run are: %s. "
+                   "Variants: user callbacks that call back in (send-complete sends 2 bytes; receive callback echoes what it took; pauses the descriptor / disconnects the connection; shrinks receive and send buffer after its partial hasRead); bind()/unbind() "
+                   "to a recording receiver, shrinkSendBuffer()/shrinkRecvBuffer() as extra operations; initialize(kReadOnly) / initialize(kWriteOnly); descriptor kind: non-blocking socketpair, socketpair handed over blocking, pipe read end, pipe write end. "
+                   "Only operations that change the model state are offered. After every history the loop is run to quiescence with the peer draining, then the callback is replaced on the live object (threshold 0, take all) and the peer writes one more byte: "
+                   "all unconsumed bytes must come again with it. Byte-exact std::string reference for both directions; shown/delivered/close clauses are decided by the reference model. "
+                   "(2) TcpServer+TcpClient lane (real acceptor/connector over a unix-domain socket, depth %d, %d configurations: threshold/policy 0/all; 3/all-but-1 with client 0 auto-reconnecting, client 1 bound to a receiver (also un/re-bound on the live "
+                   "connection) and server-stop = cleanup()+initialize(); greeting sent inside both connected callbacks + echo server; each side closing its own end inside its first receive callback (the last two one level shallower)): objects go through several sessions - "
+                   "client stop/start, client 1 cleanup()+initialize(), peer-initiated disconnect, auto-reconnect, server stop/start with connections waiting in the listen queue, shutdown(SHUT_WR) from either side, late installation of callbacks inside the "
+                   "connected callback, per-connection send-complete against per-descriptor written counters, callback replacement at the end; the clock stands still during a history. (3) bulk lanes with real kernel back-pressure, over a socketpair and over a pipe: "
+                   "sends of 64 KiB-2 MiB through a 4 KiB kernel buffer before/after enable; receives of 1024 B-1 MiB in two step sizes x threshold {0,1500} x {take all, all-but-1, nothing, forward to a second real BufferedFd with a slow reader} x enable before/after the data"
+                   % (depth, maxdev, len(cfgs), "; ".join(pairs), tdepth, len(tcfgs)),
               assumptions=["at raw BufferedFd level the harness disables the descriptor in its read-zero callback, as every in-tree user does (DESIGN 1.7)", "bytes below the receive threshold stay buffered (not counted as lost)",
                            "while a receiver is bound, received bytes are due to the receiver instead of the callback; bytes that were already buffered below the threshold when bind() was called are only demanded once a later byte arrives",
                            "after a user-side stop()/disconnect() nothing is demanded of bytes still queued on that side; a disconnected callback is expected only for a close/half-close made by the other side",
-                           "the kernel hands out unix-domain connections in connect() order, so the k-th server connected-callback belongs to the k-th connect(); sends in the server/client lane are small enough to be written through at once"])
+                           "after the peer closed its descriptor completely nothing is demanded of bytes it had not read or that are sent afterwards, and send-complete is not judged any more",
+                           "the kernel hands out unix-domain connections in connect() order; connections still waiting in the listen queue die with the listening socket (their client stays in its retry delay, the clock being frozen); "
+                           "sends in the server/client lane are small enough to be written through at once"])
